@@ -19,6 +19,7 @@ import (
 	"github.com/prometheus/prometheus/discovery/targetgroup"
 	"github.com/prometheus/prometheus/model/labels"
 	pscrape "github.com/prometheus/prometheus/scrape"
+	"github.com/sirupsen/logrus"
 	"pgregory.net/rapid"
 
 	"tkestack.io/kvass/pkg/discovery"
@@ -32,6 +33,29 @@ type c17Op struct {
 	Kind   string               `json:"kind"` // update | reload | read
 	Update map[string][]grpSpec `json:"update,omitempty"`
 	Jobs   []string             `json:"jobs,omitempty"` // job names configured after a reload
+	// During (update): a reload that lands while this update is being translated (the harness performs it from a
+	// hook of the discovery's logger, at the moment the translation reports a target without address); it keeps a
+	// subset of the configured jobs, unchanged.  The outcome must be that of the update followed by the reload.
+	During    []string `json:"during,omitempty"`
+	HasDuring bool     `json:"hasDuring,omitempty"`
+}
+
+// errHook runs fn (once) when the logger it is attached to emits an error entry.
+type errHook struct {
+	mu sync.Mutex
+	fn func()
+}
+
+func (h *errHook) Levels() []logrus.Level { return []logrus.Level{logrus.ErrorLevel} }
+func (h *errHook) Fire(*logrus.Entry) error {
+	h.mu.Lock()
+	fn := h.fn
+	h.fn = nil
+	h.mu.Unlock()
+	if fn != nil {
+		fn()
+	}
+	return nil
 }
 
 type c17Case struct {
@@ -139,7 +163,7 @@ func c17Config(jobs []string) string {
 func baseName(n string) string { return strings.SplitN(n, "#", 2)[0] }
 
 func recC17() *vkit.Recorder {
-	r := vkit.Rec("C17", "exploration", "rapid operation sequences over the real TargetsDiscovery (fed through Run's channel) and the real Explore wired as cmd/kvass/coordinator.go wires them: update (full map over the configured jobs or a partial first round), reload (adds / removes / keeps jobs; the configuration arrives as raw content, as a rewritten file, through the exchanged symlink of a ConfigMap-style volume, or as a file replaced by content of equal size and preserved modification time), read; a concurrent reader polls ActiveTargets throughout; model = per configured job the target set of its latest update as translated by the vendored Prometheus library; after every step active and dropped sets, the explorer's table and all earlier snapshots are compared with the model; non-trivial = sequence with a reload that keeps >=1 populated job and removes or adds another, followed by an update; distinct = digest of the sequence")
+	r := vkit.Rec("C17", "exploration", "rapid operation sequences over the real TargetsDiscovery (fed through Run's channel) and the real Explore wired as cmd/kvass/coordinator.go wires them: update (full map over the configured jobs or a partial first round), reload (adds / removes / keeps jobs; a quarter of the updates have a reload of the unchanged file or one that removes jobs landing while the update is being translated - the outcome must be that of update-then-reload; the configuration arrives as raw content, as a rewritten file, through the exchanged symlink of a ConfigMap-style volume, or as a file replaced by content of equal size and preserved modification time), read; a concurrent reader polls ActiveTargets throughout; model = per configured job the target set of its latest update as translated by the vendored Prometheus library; after every step active and dropped sets, the explorer's table and all earlier snapshots are compared with the model; non-trivial = sequence with a reload that keeps >=1 populated job and removes or adds another, followed by an update; distinct = digest of the sequence")
 	r.Assume("discovery updates for a job are complete target-group lists (as the Prometheus discovery manager emits them); the 'never even momentarily' clause depends on a thread interleaving the harness does not own: the polling reader gives probabilistic coverage of it")
 	return r
 }
@@ -229,7 +253,11 @@ func runC17(rec *vkit.Recorder, c *c17Case) []vkit.Violation {
 	}
 	// ---- wiring as in cmd/kvass/coordinator.go
 	sm := kscrape.New(false, quiet)
-	td := discovery.New(quiet)
+	hook := &errHook{}
+	hookLog := logrus.New()
+	hookLog.SetOutput(ioutil.Discard)
+	hookLog.AddHook(hook)
+	td := discovery.New(hookLog)
 	exp := explore.New(sm, prometheus.NewRegistry(), quiet)
 	cm := prom.NewConfigManager()
 	cm.AddReloadCallbacks(sm.ApplyConfig, exp.ApplyConfig, td.ApplyConfig)
@@ -335,6 +363,7 @@ func runC17(rec *vkit.Recorder, c *c17Case) []vkit.Violation {
 		return out
 	}
 	flagReloadKeep, nt := false, false
+	flagReloadDuring := false
 
 	verify := func(step int, what string) {
 		act, drop := td.ActiveTargets(), td.DropTargets()
@@ -404,6 +433,29 @@ func runC17(rec *vkit.Recorder, c *c17Case) []vkit.Violation {
 					keep[j] = true
 				}
 			}
+			var during map[string]bool
+			fired := false
+			if op.HasDuring {
+				during = map[string]bool{}
+				for _, jv := range op.During {
+					during[baseName(jv)] = true
+				}
+				// visible throughout: populated before, after the update, and kept by the reload
+				for j := range keep {
+					if !during[j] {
+						delete(keep, j)
+					}
+				}
+				jobs := op.During
+				hook.mu.Lock()
+				hook.fn = func() {
+					fired = true
+					if err := ld.load(c17Config(jobs)); err != nil {
+						add("C17/reload-fails", "step %d: reload during the update: %v", i, err)
+					}
+				}
+				hook.mu.Unlock()
+			}
 			setMustHave(keep)
 			select {
 			case sdCh <- sd:
@@ -414,6 +466,24 @@ func runC17(rec *vkit.Recorder, c *c17Case) []vkit.Violation {
 			case <-forwarded:
 			case <-time.After(10 * time.Second):
 				add("C17/harness", "update not forwarded")
+			}
+			if op.HasDuring {
+				hook.mu.Lock()
+				pending := hook.fn
+				hook.fn = nil
+				hook.mu.Unlock()
+				if pending != nil {
+					pending() // the translation reported no error: the reload simply follows the update
+				}
+				if fired {
+					flagReloadDuring = true
+				}
+				for j := range next {
+					if !during[j] {
+						delete(next, j)
+					}
+				}
+				configured = during
 			}
 			model = next
 			exploreJobs = map[string]bool{}
@@ -506,6 +576,10 @@ func runC17(rec *vkit.Recorder, c *c17Case) []vkit.Violation {
 	}
 	b, _ := json.Marshal(c)
 	var cls []string
+	if flagReloadDuring {
+		cls = append(cls, "reload-landed-while-an-update-was-being-translated")
+		nt = true
+	}
 	if flagReloadKeep {
 		cls = append(cls, "reload-keeping-populated-job")
 		if c.Via != "" {
@@ -564,6 +638,26 @@ func genC17(t *rapid.T) *c17Case {
 			// the SD manager may still report a job that was just removed
 			if rapid.IntRange(0, 5).Draw(t, l+"-ghost") == 0 {
 				op.Update["jz"] = genGroups(t, l+"-ghostgrp", 1, 2, false)
+			}
+			if rapid.IntRange(0, 3).Draw(t, l+"-reloadDuring") == 0 {
+				// a reload (of the unchanged file, or one that removes some jobs) lands inside this update; a target
+				// without address makes the translation log an error, which is where the harness reloads
+				op.HasDuring = true
+				for _, jv := range cur {
+					if rapid.IntRange(0, 3).Draw(t, l+"-during-"+jv) != 0 {
+						op.During = append(op.During, jv)
+					}
+				}
+				if len(op.During) == 0 {
+					op.During = append(op.During, cur[0])
+				}
+				for _, jv := range cur {
+					if gs := op.Update[baseName(jv)]; len(gs) > 0 {
+						gs[0].Targets = append(gs[0].Targets, map[string]string{"zone": "no-address"})
+						break
+					}
+				}
+				cur = op.During
 			}
 			c.Ops = append(c.Ops, op)
 		case 1:
